@@ -152,6 +152,12 @@ func runC11(r *rt.Run, tier string) {
 		model = append([]mPara{{Fields: []mField{{Name: "-Dash-Field", Lines: []string{"- dashed value"}}}}}, model...)
 		r.Probe("dash-escaped-line")
 	}
+	if t.Bool(1, 5, "c11.crfield") {
+		// a carriage return that is not part of a line end is content like any other byte
+		text = append([]byte("Cr-Field: first\rsecond\n more\rtext\n\n"), text...)
+		model = append([]mPara{{Fields: []mField{{Name: "Cr-Field", Lines: []string{"first\rsecond", "more\rtext"}}}}}, model...)
+		r.Probe("carriage-return-inside-a-signed-line")
+	}
 	if t.Bool(1, 12, "c11.blanktext") {
 		// a signed text without any paragraph: still has to be verified
 		text = []byte([]string{"", "\n", "\n\n"}[t.Draw(3, "c11.blankkind")])
@@ -524,6 +530,35 @@ func runC11(r *rt.Run, tier string) {
 			r.Violate("C11/signed-paragraphs-differ", "callers-bufio-reused", "verified reader returned %d paragraphs, the signed text has %d, after the caller re-used its bufio.Reader", len(viaCaller), len(model))
 		}
 		r.Probe("callers-bufio-reused")
+		// the stream's end is not final: after the verified reader was built (the
+		// whole input, up to the end it reported, was consumed and checked) a
+		// foreign paragraph is appended - it is not part of what was verified
+		var viaGrown []control.Paragraph
+		var vgErr error
+		task = r.Solo("grown-stream", func() {
+			src := simio.NewPlainReader(r, "growing", data)
+			src.GrowAfterEOF([]byte("\n" + c11Foreign))
+			pr, err := control.NewParagraphReader(src, keyring)
+			if err != nil {
+				vgErr = err
+				return
+			}
+			viaGrown, vgErr = pr.All()
+			if vgErr == nil {
+				if p, err := pr.Next(); err == nil && p != nil {
+					viaGrown = append(viaGrown, *p)
+				}
+			}
+		})
+		if taskTrouble(r, "C11", key+"/grown-stream", task) {
+			return
+		}
+		if m := mentionsForeign(viaGrown); m != "" {
+			r.Violate("C11/unsigned-text-reached-caller", "stream-grew-after-verification", "text appended to the stream after the signed document had been read to its (then) end and verified was returned by the verified reader: %s", m)
+		} else if vgErr == nil && len(viaGrown) != len(model) {
+			r.Violate("C11/signed-paragraphs-differ", "stream-grew-after-verification", "verified reader returned %d paragraphs, the signed text has %d", len(viaGrown), len(model))
+		}
+		r.Probe("stream-grew-after-verification")
 	}
 
 	// 4. unsigned input never has a signer (the plain text of the same document)
@@ -548,5 +583,5 @@ func init() {
 		},
 		Assumptions: []string{"x/crypto/openpgp both signs and verifies: a bug common to both directions is invisible", "must-fail is only demanded where the canonical signed text or the decoded signature provably changed (non-blank text byte to another non-blank byte; base64 character to another base64 character; truncation before the checksum line; replaced signature; keyring without signer); all other faults are checked for soundness only", "fixture keys; signing with a fixed time is byte-deterministic"},
 	})
-	propProbes["C11"] = []string{"callers-bufio-reused", "signed-text-without-paragraphs", "two-readers-alive", "reread-with-other-keyrings", "empty-keyring-as-nil-slice", "verification-succeeded", "dash-escaped-line", "substitution-in-signed-text", "substitution-in-signature-armor", "truncation-inside-armor", "nil-keyring", "unsigned-input"}
+	propProbes["C11"] = []string{"stream-grew-after-verification", "carriage-return-inside-a-signed-line", "callers-bufio-reused", "signed-text-without-paragraphs", "two-readers-alive", "reread-with-other-keyrings", "empty-keyring-as-nil-slice", "verification-succeeded", "dash-escaped-line", "substitution-in-signed-text", "substitution-in-signature-armor", "truncation-inside-armor", "nil-keyring", "unsigned-input"}
 }
